@@ -10,14 +10,25 @@ R2 layer config completeness: for every layer class of the table each named
    get_config; and every key the class emits is accepted by its constructor.
 R3 quantizer entries are serialised from the *_internal object that call()
    applies.
+R5 interpreted round trip of the quantizer-valued options: every layer
+   class of the table is constructed through its own __init__ with quantizer
+   *objects* that carry options the text form does not show, get_config() is
+   interpreted (Keras serialisers are identity-preserving tokens; their
+   fidelity is C09), the layer is rebuilt from that config through the
+   class's from_config / constructor, and each applied quantizer of the
+   rebuilt layer must compute the same function (normal-form equality) as
+   the original's.
 R4 the three reload routes (clone_model, quantized_model_from_json,
    load_qmodel) register the library's objects on a private copy of the
    caller's dictionary and hand that copy to the Keras loader.
 """
 import ast
 
+from fractions import Fraction as F
+
 from ..loader import AnalysisError
-from ..pe import PE, Mock, PyRaise, ClassRef, Func
+from ..pe import PE, Mock, PyRaise, ClassRef, Func, Obj, Tensor, Unsupported
+from ..qir import Fwd, equal_mod_finite
 from .. import qref
 
 TECHNIQUE = ("Interpretation of the custom-object table; class-model "
@@ -246,6 +257,175 @@ def rule_layer_configs(rep, repo, table):
   rep.extra["layer_classes_checked"] = n
 
 
+def _same_function(pe, q1, q2):
+  """Both quantizer objects compute the same forward function (both
+  phases)."""
+  if q1 is q2:
+    return True
+  if q1 is None or q2 is None:
+    return q1 is None and q2 is None
+  if not isinstance(q1, Obj) or not isinstance(q2, Obj):
+    return False
+  try:
+    pe.rand_counter = 0
+    o1 = pe.call(q1, [pe.x_input()], {})
+    pe.rand_counter = 0
+    o2 = pe.call(q2, [pe.x_input()], {})
+  except PyRaise:
+    return False
+  if not isinstance(o1, Tensor) or not isinstance(o2, Tensor):
+    return False
+  return all(equal_mod_finite(Fwd(ph)(o1.term), Fwd(ph)(o2.term))
+             for ph in ("infer", "train"))
+
+
+SKIP_ROUNDTRIP = {
+    # constructed from other layers / need a built inner batch-norm layer:
+    # their configs are covered by R2 / R3 and C15
+    "QConv2DBatchnorm": "inner BatchNormalization object",
+    "QDepthwiseConv2DBatchnorm": "inner BatchNormalization object",
+    "QBidirectional": "wraps another layer object",
+}
+
+
+def rule_layer_roundtrip(rep, repo, table):
+  qmod = repo.module("qkeras.quantizers")
+  n = 0
+  skipped = {}
+  for name, cref in sorted(table.items()):
+    ci = getattr(cref, "cls", None)
+    if ci is None or not is_keras_object(ci) or \
+        ci.module.name == "qkeras.quantizers":
+      continue
+    params = [p for p, _ in ci.init_params()[0]]
+    qparams = [p for p in params if p.endswith("_quantizer")]
+    if name == "QBatchNormalization":
+      # inverse_quantizer excludes the gamma / variance quantizers (the
+      # constructor asserts it); the separate quantizers are exercised
+      qparams = [p for p in qparams if p != "inverse_quantizer"]
+    if not qparams and name not in ("QActivation",):
+      continue
+    if name in SKIP_ROUNDTRIP:
+      skipped[name] = SKIP_ROUNDTRIP[name]
+      continue
+    unit = "%s::%s" % (ci.module.relpath, ci.name)
+    rep.unit(unit)
+    gowner, gfn = ci.find_method("get_config")
+    loc = gowner.module.loc(gfn) if gfn is not None else ci.loc()
+    garci = lambda pe_, a, k: (a[1], a[2])
+    pe = PE(repo, module_overrides={
+        m: {"get_auto_range_constraint_initializer": garci}
+        for m in (ci.module.name, "qkeras.qlayers")})
+    pe.opaque_ext = True
+
+    def base_init(pe_, a, k):
+      me = pe_.external_super_self
+      for kk, vv in k.items():
+        me.attrs.setdefault(kk, vv)
+      # the Keras parent serialises what it was constructed with
+      me.attrs["__base_config__"] = dict(k)
+      if a and isinstance(a[0], Obj):
+        me.attrs.setdefault("cell", a[0])   # keras RNN(cell, ...)
+        me.attrs["__base_config__"]["cell"] = Mock("serialized",
+                                                   {"obj": a[0]})
+      # defaults the Keras parents give to options they were not handed
+      for kk, vv in (("dilation_rate", (1, 1)), ("activation", None),
+                     ("data_format", "channels_last"), ("use_bias", True),
+                     ("padding", "valid"), ("strides", (1, 1)),
+                     ("groups", 1), ("output_padding", None)):
+        me.attrs.setdefault(kk, vv)
+
+    def base_get_config(pe_, a, k):
+      me = pe_.external_super_self
+      return dict(me.attrs.get("__base_config__", {}))
+
+    def ser(pe_, a, k):
+      v = a[0]
+      if isinstance(v, (Obj, Mock)):
+        return Mock("serialized", {"obj": v})
+      return v
+
+    def deser(pe_, a, k):
+      v = a[0]
+      if isinstance(v, Mock) and v.name == "serialized":
+        return v.attrs["obj"]
+      return v
+    eo = {"<external-super>.__init__": base_init,
+          "super.get_config": base_get_config}
+    eo["*.serialize"] = ser
+    eo["*.deserialize"] = deser
+    eo["*.serialize_keras_object"] = ser
+    eo["*.deserialize_keras_object"] = deser
+    pe.ext_overrides = eo
+    kw = {}
+    for i, p in enumerate(qparams):
+      kw[p] = pe.call(pe.lookup_global("quantized_bits", qmod), [], dict(
+          bits=3 + i, integer=1, alpha=1, qnoise_factor=F(1, 2)))
+    if "activation" in params:
+      kw["activation"] = pe.call(
+          pe.lookup_global("quantized_relu", qmod), [], dict(
+              bits=5, integer=2, relu_upper_bound=F(3, 2),
+              is_quantized_clip=False))
+    for p_, v_ in (("units", 4), ("filters", 8), ("kernel_size", (3, 3))):
+      if p_ in params:
+        kw[p_] = v_
+    try:
+      o = pe.call(cref, [], dict(kw))
+      cfg = pe.call(pe.getattr(o, "get_config"), [], {})
+    except (PyRaise, Unsupported) as e:
+      skipped[name] = "not interpretable: %s" % str(e)[:120]
+      continue
+    if not isinstance(cfg, dict):
+      skipped[name] = "get_config() is not a dictionary"
+      continue
+    # rebuild: the class's own from_config, else cls(**config)
+    fowner, ffn = ci.find_method("from_config")
+    cfg2 = {k: (v.attrs["obj"] if isinstance(v, Mock) and
+                v.name == "serialized" else v) for k, v in cfg.items()}
+    try:
+      if ffn is not None:
+        f = Func(ffn, fowner.module, [], "from_config", cref, fowner)
+        o2 = pe.call_func(f, [dict(cfg2)], {})
+      else:
+        has_kw = ci.init_params()[2]
+        o2 = pe.call(cref, [], {k: v for k, v in cfg2.items()
+                                if k in params or has_kw})
+    except PyRaise as e:
+      rep.fail("R5", unit, "rebuild-from-own-config-raises",
+               "%s rebuilt from its own get_config() raises %s" % (name, e),
+               loc=loc)
+      continue
+    except Unsupported as e:
+      skipped[name] = "from_config not interpretable: %s" % str(e)[:120]
+      continue
+    if not isinstance(o2, Obj):
+      skipped[name] = "from_config result is opaque"
+      continue
+    n += 1
+    attrs = [p + "_internal" for p in qparams]
+    if name == "QActivation":
+      attrs = ["quantizer"]
+    elif "activation" in params:
+      attrs.append("activation")
+    for a in attrs:
+      q1, q2 = o.attrs.get(a), o2.attrs.get(a)
+      if a == "activation" and not isinstance(q1, Obj):
+        continue
+      rep.check(_same_function(pe, q1, q2), "R5", unit,
+                "quantizer-changed-by-config-round-trip:" + a,
+                "%s built with quantizer objects and rebuilt from its own "
+                "get_config() applies a different quantizer as %s "
+                "(config entry: %r)" % (
+                    name, a, cfg.get(a.replace("_internal", ""),
+                                     cfg.get("activation"))),
+                loc=loc)
+  rep.extra["layer_roundtrips"] = n
+  rep.extra["layer_roundtrips_skipped"] = skipped
+  if n < 18:
+    raise AnalysisError("instance-count only %d layer classes round-tripped "
+                        "(%s)" % (n, skipped))
+
+
 def rule_routes(rep, repo):
   um = repo.module(UM)
   for fname, loader in (("clone_model", "model_from_json"),
@@ -356,6 +536,8 @@ def run(rep, repo, tier):
   table = rule_table(rep, repo)
   rule_layer_configs(rep, repo, table)
   rule_routes(rep, repo)
+  rule_layer_roundtrip(rep, repo, table)
+  rep.require_instances("R5", 25)
   rep.sample({"custom_object_table": sorted(table)})
   rep.require_instances("R1", 50)
   rep.require_instances("R2", 150)
